@@ -309,6 +309,36 @@ def characters(check, tier):
     s.done()
 
 
+def normalize_slice_bounded(check, tier):
+    """the callee contract of the run walk evaluated at run time (as in C06): a change of normalize_slice that the executor cannot follow
+    is still decided for small lengths; plus the one place where column slicing shows what normalize_slice does with a stop past the end:
+    a last run that takes no column (a combining accent in a run of its own) belongs to the last column of a window that ends beyond it"""
+    s = Suite(check, "C10.normalize_slice", "normalize_slice's contract at run time: lengths 0..5 x every int / slice bound in [-len-2, len+2] + None; "
+              "values whose LAST run is zero-width, sliced by column ranges ending up to 80 columns past the width", bound="length<=5")
+    for n in range(0, 6):
+        bounds = list(range(-n - 2, n + 3)) + [None]
+        for i in range(-n - 2, n + 3):
+            s.contract_case(F.normalize_slice, dict(length=n, index=i), key=(n, i))
+        for a in bounds:
+            for b in bounds:
+                s.contract_case(F.normalize_slice, dict(length=n, index=slice(a, b)), key=(n, a, b))
+    for base in ("cafe", "e", "\uff25a"):
+        for zw in ("\u0301", "\u0301\u0300", "\u200d"):
+            f = FmtStr(Chunk(base, ATTS[0]), Chunk(zw, ATTS[1]))
+            w = f.width
+            for a in range(0, w):
+                for b in (w + 1, w + 2, w + 5, w + 80, None):
+                    s.case((base, zw, a, b))
+                    try:
+                        got = f.width_aware_slice(slice(a, b))
+                        d = "" if zw in got.s and got.s.endswith(zw) else f"columns {a}..{'end' if b is None else b - 1} of {f!r}: {got!r} lost the zero-width run that the last column holds"
+                    except Exception as e:      # noqa: BLE001
+                        d = f"raised {type(e).__name__}: {e}"
+                    if d:
+                        s.fail("C10.width_aware_slice.trailing_zero_width", dict(base=base, zero_width=zw.encode("unicode_escape").decode(), a=a, b=b), d)
+    s.done()
+
+
 def long_inputs(check, tier):
     from bounded.common import long_values
     s = Suite(check, "C10.long", "width, width_at_offset and column ranges / index forms of values with thousands of runs against the column model",
@@ -347,5 +377,9 @@ def run(check, tier, seed):
     lemma_selftest(check, tier)
     for c in CONTRACTS:
         verify(c, tier, check)
+    # (the run walk is proved over normalize_slice's contract - exact normalised bounds, a stop past the end is NOT clamped -: decided here
+    # too, not only in C06)
+    verify(F.normalize_slice, tier, check, prefix="C10")
+    normalize_slice_bounded(check, tier)
     bounded(check, tier)
     derived(check, tier, seed)
